@@ -324,3 +324,33 @@ def scrape_maybe_negative(attr_lua, cbuiltins):
         if not re.search(r"type\.is_integral and \(lattr:is_maybe_negative\(\) or rattr:is_maybe_negative\(\)\) then\s*\n\s*emitter:add_builtin\('nelua_i(div|mod)_'", f.group(1)):
             either = False
     return {"exits": exits, "unknown": unknown, "either": either}
+
+
+def scrape_compiler_entries(cdefs):
+    """every entry of cdefs.compilers_flags in file order: [{"name", "derives_from_gcc", "cflags_base"}], the inheritance
+    (tabler.updatecopy) and aliases (compilers_flags[x] = compilers_flags.y) resolved; derives_from_gcc is computed from the
+    parent chain (gcc itself included)"""
+    tables = scrape_cflags(cdefs)
+    parent = {}
+    order = []
+    for m in re.finditer(r"compilers_flags(?:\.(\w+)|\['([^']+)'\])\s*=\s*(tabler\.updatecopy\(\s*)?(?:compilers_flags(?:\.(\w+)|\['([^']+)'\]))?", cdefs):
+        name = m.group(1) or m.group(2)
+        par = m.group(4) or m.group(5)
+        if name in tables and name not in parent:
+            parent[name] = (par, bool(m.group(3)))      # (parent or alias target, is a copy)
+            order.append(name)
+
+    def derives(n, seen=()):
+        if n == "gcc":
+            return True
+        p = parent.get(n, (None, False))[0]
+        return bool(p) and p not in seen and derives(p, seen + (n,))
+    return [{"name": n, "derives_from_gcc": derives(n), "cflags_base": tables[n].get("cflags_base", "")} for n in order]
+
+
+def scrape_generic_cc_fallback(ccompiler):
+    """ccompiler.get_compiler_cflags: does the generic `cc` entry get gcc's base flags when the compiler identifies itself
+    as GNU C / clang?  Also checks the fact the model relies on: the entry's cflags_base is what is added."""
+    if not re.search(r"cflags:add\(' '\.\.(ccflags\.)?cflags_base\)", ccompiler):
+        raise RuntimeError("ccompiler.lua: get_compiler_cflags no longer adds cflags_base")
+    return bool(re.search(r"if ccflags == cdefs\.compilers_flags\.cc and \(ccinfo\.is_gcc or ccinfo\.is_clang\) then[^\n]*\n(?:\s*--[^\n]*\n)*\s*cflags_base = cdefs\.compilers_flags\.gcc\.cflags_base", ccompiler))
